@@ -1334,7 +1334,9 @@ def np_fft2(ctx, a, s=None, axes=None, norm=None):
     """Abstract: a fresh array of the same shape; the normalisation keyword is recorded as a ghost."""
     a = arr(ctx, a)
     ctx.__dict__.setdefault('ghost_fft_calls', []).append({'fn': 'fft2', 'norm': norm, 'input': a.snapshot()})
-    return A.fresh_array(ctx, 'fft2', a.shape, 'complex')
+    out = A.fresh_array(ctx, 'fft2', a.shape, 'complex')
+    ctx.ghost_last_fft2 = out
+    return out
 
 
 @lib('numpy.fft.ifft2', 'abstract')
